@@ -62,9 +62,20 @@ func (c13) Gen(seed uint64, tier string) *Scenario {
 			"SELECT id, DATETIME_FORMAT(@d, '%Y-%m-' || STRING(id % 9)), DATETIME(STRING(2000 + id % 30) || '-01-02 03:04:05'), ADD_DAY(@d, id) FROM a;",
 			"SELECT id, REGEXP_REPLACE(s, '[' || STRING(id % 3) || 'a-c]', '_'), REGEXP_FIND(s, '[a-z]+' || STRING(id % 4) || '?'), s LIKE '%' || STRING(id % 3) || '%' FROM a;"))
 	}
+	cancelled := r.Bool(0.3)
+	if cancelled {
+		// programs that are cancelled end with statements whose evaluation has several
+		// parallel phases (both operands of a set operator, key generation, merging):
+		// an interruption is the only way most of these phases can fail
+		for i, n := 0, r.Range(1, 3); i < n; i++ {
+			m.Stmts = append(m.Stmts, r.PickS("SELECT g, s FROM a EXCEPT SELECT g, 'cat' FROM b;", "SELECT id, g FROM a INTERSECT SELECT id, g FROM b;", "SELECT g, v FROM a EXCEPT ALL SELECT g, w FROM b;",
+				"SELECT g FROM a INTERSECT ALL SELECT g FROM b;", "SELECT id, s FROM a UNION SELECT id, STRING(w) FROM b;", "SELECT DISTINCT g, s FROM a;", "SELECT a.id, b.id FROM a FULL OUTER JOIN b ON a.g = b.g;",
+				"SELECT g, COUNT(*), LISTAGG(s, ',') WITHIN GROUP (ORDER BY id) FROM a GROUP BY g;", "SELECT id FROM a WHERE v IS NOT NULL INTERSECT SELECT id FROM b UNION ALL SELECT g FROM b EXCEPT SELECT 0;"))
+		}
+	}
 	renderQuery(sc, m)
-	if r.Bool(0.2) {
-		sc.Cancels = []CancelSpec{{Proc: 0, AtYield: 1 + r.Intn(400)}}
+	if cancelled {
+		sc.Cancels = []CancelSpec{{Proc: 0, AtYield: 1 + r.Intn(400)}} // (the position is re-drawn per run from the program's real length)
 	}
 	// the simulated allocator serialises its callers through a mutex, which the race
 	// detector would take for synchronisation between workers: use csvq's own sync.Pool
@@ -174,9 +185,31 @@ func (c13) Eval(t *testing.T, c *Case, dec func(int) *Decider) *Outcome {
 			o.viol(prop, "data-race", rr.Sig, fmt.Sprintf("data race during %s:\n%s", label, rr.Text))
 		}
 	}
+	if len(sc.Cancels) > 0 {
+		// the first run is not cancelled and tells how many scheduling points the program
+		// has; the cancellations of the following runs are spread over all of them (a
+		// fixed range would never reach the later statements of a long program)
+		vs = append(vs, genVariants(hashLabel(c.Seed, "more"), 2)...)
+	}
+	yields := 0
 	for i, v := range vs {
 		vsc := withVariant(sc, v)
+		if len(sc.Cancels) > 0 {
+			if i == 0 {
+				vsc.Cancels = nil
+			} else if yields > 0 {
+				rc := Sub(c.Seed, fmt.Sprintf("cancel-at-%d", i))
+				at := 1 + rc.Intn(yields)
+				if i >= 2 {
+					at = yields - rc.Intn(1+yields/3) // the last third: the statements appended for this purpose
+				}
+				vsc.Cancels = []CancelSpec{{Proc: 0, AtYield: max(1, at)}}
+			}
+		}
 		res, _ := Execute(t, vsc, dec(i))
+		if i == 0 && len(res.ProcYields) > 0 {
+			yields = res.ProcYields[0]
+		}
 		o.Runs++
 		o.addStats(res.Stats)
 		o.LogHash += res.TraceHash // outputs may legitimately differ after an injected cancel; the schedule is what must replay
